@@ -3,7 +3,7 @@ use crate::util::*;
 use clvmr::allocator::Allocator;
 
 proof! {
-    #[kani::unwind(6)]
+    #[kani::unwind(12)]
     fn selftest_must_fail() {
         let mut a = Allocator::new();
         let v: u64 = kani::any();
